@@ -2,6 +2,7 @@ import PV.Model.Eval
 import PV.Model.Ops
 import PV.Model.Traverse
 import PV.Driver.GAOps
+import PV.Driver.UnifyOps
 import PV.Driver.RewriteOps
 import PV.Driver.PickleOps
 import PV.Driver.DiffOps
@@ -194,6 +195,7 @@ def handlers : List (Sexp → Option Sexp) :=
    , handleDiff
    , handlePickle
    , handleRewrite
+   , handleUnify
    -- HANDLERS
   ]
 
